@@ -186,6 +186,8 @@ def build(p, mt, cache_dir=None):
             commit[k] = r
     res = {"back": back, "commit": commit}
     if cache_dir:
+        from .facts import code_unchanged
+    if cache_dir and code_unchanged():
         tmp = f + ".tmp%d" % os.getpid()
         with open(tmp, "wb") as fh:
             pickle.dump(res, fh)
